@@ -1,4 +1,5 @@
 import H2T.Lemmas.CssTotal
+import H2T.Lemmas.SkipWs
 
 /-! # C17 — CSS never breaks rendering; insignificant CSS syntax does not matter
 
@@ -142,5 +143,39 @@ example : (match doAddCss "p{color:red ;;background-color:blue;;}".toList with |
   decide +kernel
 /-- an out-of-range nth-child argument fails the parse, it does not panic -/
 example : (match parseNthArgs "(99999999999)".toList with | .fail => true | _ => false) = true := by decide +kernel
+
+/-! ## whitespace and comments are insignificant wherever the grammar skips whitespace
+
+`WsSeq w`: `w` is a sequence of whitespace characters and complete comments.  Minified, pretty-printed and commented
+variants of a sheet differ by such sequences at the positions where the parser calls `skip_optional_whitespace`. -/
+
+/-- **any whitespace/comment sequence is absorbed** at a position where the parser skips whitespace: inserting, removing or
+    replacing it leaves the remaining input the parser sees unchanged -/
+theorem ws_and_comments_absorbed (w : Inp) (hw : WsSeq w) (i : Inp) : skipWs (w ++ i) = skipWs i := skipWs_absorbs w hw i
+
+/-- two variants of the insignificant text in front of the same continuation are indistinguishable -/
+theorem ws_variants_indistinguishable (w1 w2 : Inp) (h1 : WsSeq w1) (h2 : WsSeq w2) (i : Inp) :
+    skipWs (w1 ++ i) = skipWs (w2 ++ i) := skipWs_variants w1 w2 h1 h2 i
+
+/-- skipping is idempotent and stops in front of something that is neither whitespace nor a comment -/
+theorem skip_is_idempotent (i : Inp) : skipWs (skipWs i) = skipWs i ∧ wsItem (skipWs i) = none :=
+  ⟨skipWs_idem i, wsItem_skipWs i⟩
+
+/-- **in front of a declaration, of every token of a value, and of the `;` between declarations** the sequence does not matter -/
+theorem declaration_token_separator_absorb (w : Inp) (hw : WsSeq w) (t : Inp) :
+    parseDeclaration (w ++ t) = parseDeclaration t ∧ parseToken (w ++ t) = parseToken t ∧ sepSemis (w ++ t) = sepSemis t :=
+  ⟨parseDeclaration_absorbs w hw t, parseToken_absorbs w hw t, sepSemis_absorbs w hw t⟩
+
+/-- **around the colon**: `name w1 : w2 value` is the declaration `name:value` -/
+theorem ws_around_colon (t r v w1 w2 : Inp) (p : String) (hw1 : WsSeq w1) (hw2 : WsSeq w2) (t' r' : Inp)
+    (h1 : parseIdent t = some (r, p)) (h2 : parseIdent t' = some (r', p)) (hr : r = w1 ++ ':' :: (w2 ++ v)) (hr' : r' = ':' :: v) :
+    parseDeclaration t = parseDeclaration t' :=
+  parseDeclaration_colon t r v w1 w2 p hw1 hw2 t' r' h1 h2 hr hr'
+
+/-- non-vacuity: a blank, a newline and a comment holding `;` and `}` form such a sequence; a comment without `*` in its
+    body always closes at its own `*/` -/
+example : WsSeq " \n/* ; } */\t".toList :=
+  .ws ' ' _ (by decide) (.ws '\n' _ (by decide)
+    (.comment " ; } ".toList _ (commentEnd_plain _ (by decide)) (.ws '\t' _ (by decide) .nil)))
 
 end H2T.C17
